@@ -809,6 +809,10 @@ func (y *Type) RequireInstance() bool {
 
 // IdentityBases are the bases of an identityref, for a union those of all its identityref members
 func (y *Type) IdentityBases() []*Identity {
+	if y.format.Single() == val.FmtLeafRef && y.delegate != nil && y.delegate != y {
+		// the values of a leafref are those of the leaf it refers to
+		return y.delegate.IdentityBases()
+	}
 	if len(y.unionTypes) == 0 {
 		return y.Base()
 	}
